@@ -55,6 +55,7 @@
 //! Dictionary encoding choices (entry order, unused / duplicate / null entries, null keys vs null
 //! values) and run splitting for ree are a deterministic function (FNV hash) of the column content.
 use arrow_array::builder::make_view;
+use arrow_array::cast::AsArray;
 use arrow_array::types::*;
 use arrow_array::*;
 use arrow_buffer::{BooleanBuffer, Buffer, IntervalDayTime, NullBuffer, OffsetBuffer, ScalarBuffer, i256};
@@ -77,7 +78,7 @@ type R<T> = Result<T, String>;
 // values
 
 #[derive(Clone, Debug, PartialEq)]
-pub enum V {
+enum V {
     N,
     I(i128),
     W(i256),
@@ -409,7 +410,7 @@ fn p_type(c: &mut Cur) -> R<DataType> {
     })
 }
 
-pub fn p_schema(s: &str) -> R<Vec<Field>> {
+fn p_schema(s: &str) -> R<Vec<Field>> {
     let mut c = Cur::new(s);
     let mut fs = vec![];
     loop {
@@ -1010,7 +1011,7 @@ fn b_ree(dt: &DataType, rf: &Field, vf: &Field, vals: &[V], cx: &mut Cx) -> R<Ar
     Ok(make_array(data))
 }
 
-pub fn build(dt: &DataType, vals: &[V], cx: &mut Cx) -> R<ArrayRef> {
+fn build(dt: &DataType, vals: &[V], cx: &mut Cx) -> R<ArrayRef> {
     let n = vals.len();
     let valid: Vec<bool> = vals.iter().map(|v| !matches!(v, V::N)).collect();
     Ok(match dt {
@@ -1428,7 +1429,7 @@ fn parse_props(s: &str, paths: &[ColumnPath]) -> R<Props> {
             }),
             "bloom" => {
                 let n = us(v)?;
-                if n == 0 { b.set_bloom_filter_enabled(false) } else { b.set_bloom_filter_enabled(true).set_bloom_filter_ndv(n as u64) }
+                if n == 0 { b.set_bloom_filter_enabled(false) } else { b.set_bloom_filter_enabled(true).set_bloom_filter_max_ndv(n as u64) }
             }
             "cdc" => {
                 if v == "0" {
@@ -1685,6 +1686,14 @@ fn write_par(schema: &SchemaRef, p: &Props, steps: &[Step]) -> Result<Vec<u8>, p
     fw.into_inner()
 }
 
+/// error class only; the message goes to stderr when C05_DEBUG is set
+fn dbg(class: &str, msg: &str) -> String {
+    if std::env::var_os("C05_DEBUG").is_some() {
+        eprintln!("{}: {}", class, msg);
+    }
+    class.to_string()
+}
+
 pub fn run_e2e(toks: &[&str]) -> String {
     if toks.len() != 7 {
         return "ERR:parse".into();
@@ -1713,12 +1722,12 @@ pub fn run_e2e(toks: &[&str]) -> String {
         // input arrays; their dump must reproduce the case line before anything is written
         let steps = match build_steps(&schema, &cols, &plan) {
             Ok(s) => s,
-            Err(_) => return "ERR:build".into(),
+            Err(e) => return dbg("ERR:build", &e),
         };
         let inputs: Vec<RecordBatch> = steps.iter().filter_map(|s| if let Step::Write(b) = s { Some(b.clone()) } else { None }).collect();
         let pre = format!("{} {}", schema_text(&schema, None), dump_batches(schema.fields(), &inputs));
         if pre != want {
-            return "ERR:build".into();
+            return dbg("ERR:build", &format!("dump of the built input differs: {}", pre));
         }
         // leaf paths for per-column properties
         let paths: Vec<ColumnPath> = match ArrowSchemaConverter::new().convert(&schema) {
@@ -1732,7 +1741,7 @@ pub fn run_e2e(toks: &[&str]) -> String {
         let bytes = if props.par == 0 { write_plain(&schema, props.wp.clone(), &steps) } else { write_par(&schema, &props, &steps) };
         let bytes = match bytes {
             Ok(b) => bytes::Bytes::from(b),
-            Err(_) => return "ERR:write".into(),
+            Err(e) => return dbg("ERR:write", &e.to_string()),
         };
         let rd = (|| -> Result<(SchemaRef, Vec<RecordBatch>), String> {
             let b = ParquetRecordBatchReaderBuilder::try_new(bytes).map_err(es)?;
@@ -1746,7 +1755,7 @@ pub fn run_e2e(toks: &[&str]) -> String {
         })();
         let (sch, batches) = match rd {
             Ok(x) => x,
-            Err(_) => return "ERR:read".into(),
+            Err(e) => return dbg("ERR:read", &e),
         };
         for b in &batches {
             if b.schema().fields() != sch.fields() || b.num_rows() > rbs {
@@ -1755,4 +1764,695 @@ pub fn run_e2e(toks: &[&str]) -> String {
         }
         format!("{} {}", schema_text(&sch, Some(&fields)), dump_batches(sch.fields(), &batches))
     })
+}
+
+// ------------------------------------------------------------------------------------------
+// generator
+
+fn has_null(v: &V) -> bool {
+    match v {
+        V::N => true,
+        V::L(xs) | V::S(xs) => xs.iter().any(has_null),
+        _ => false,
+    }
+}
+
+fn gen_decimal(rng: &mut Rng) -> DataType {
+    let w = rng.below(4);
+    let maxp = [9, 18, 38, 76][w as usize];
+    let p = if rng.chance(1, 2) {
+        let b: Vec<i64> = [1, 2, 9, 10, 18, 19, 38, 39, 76].into_iter().filter(|x| *x <= maxp).collect();
+        *rng.pick(&b)
+    } else {
+        rng.range(1, maxp)
+    } as u8;
+    let s = if rng.chance(1, 3) { 0 } else { rng.range(0, p as i64) } as i8;
+    match w {
+        0 => DataType::Decimal32(p, s),
+        1 => DataType::Decimal64(p, s),
+        2 => DataType::Decimal128(p, s),
+        _ => DataType::Decimal256(p, s),
+    }
+}
+
+fn gen_unit(rng: &mut Rng) -> TimeUnit {
+    *rng.pick(&[TimeUnit::Second, TimeUnit::Millisecond, TimeUnit::Microsecond, TimeUnit::Nanosecond])
+}
+
+fn gen_leaf_type(rng: &mut Rng) -> DataType {
+    match rng.below(44) {
+        0 | 1 => DataType::Boolean,
+        2 => DataType::Int8,
+        3 => DataType::Int16,
+        4 | 5 => DataType::Int32,
+        6 | 7 => DataType::Int64,
+        8 => DataType::UInt8,
+        9 => DataType::UInt16,
+        10 => DataType::UInt32,
+        11 => DataType::UInt64,
+        12 => DataType::Float16,
+        13 => DataType::Float32,
+        14 | 15 => DataType::Float64,
+        16 => DataType::Date32,
+        17 => DataType::Date64,
+        18 => DataType::Time32(if rng.bool() { TimeUnit::Second } else { TimeUnit::Millisecond }),
+        19 => DataType::Time64(if rng.bool() { TimeUnit::Microsecond } else { TimeUnit::Nanosecond }),
+        20 | 21 => {
+            let tz = match rng.below(5) {
+                0 => Some("UTC"),
+                1 => Some("+01:00"),
+                2 => Some("Africa/Johannesburg"),
+                _ => None,
+            };
+            DataType::Timestamp(gen_unit(rng), tz.map(Arc::<str>::from))
+        }
+        22 => DataType::Duration(gen_unit(rng)),
+        23 => DataType::Interval(if rng.bool() { IntervalUnit::YearMonth } else { IntervalUnit::DayTime }),
+        24..=27 => gen_decimal(rng),
+        28..=31 => DataType::Utf8,
+        32 => DataType::LargeUtf8,
+        33 | 34 => DataType::Utf8View,
+        35 | 36 => DataType::Binary,
+        37 => DataType::LargeBinary,
+        38 | 39 => DataType::BinaryView,
+        40 | 41 => DataType::FixedSizeBinary(*rng.pick(&[0, 1, 2, 3, 4, 7, 16, 33])),
+        _ => DataType::Int32,
+    }
+}
+
+fn gen_int_type(rng: &mut Rng) -> DataType {
+    rng.pick(&[DataType::Int8, DataType::Int16, DataType::Int32, DataType::Int64, DataType::UInt8, DataType::UInt16, DataType::UInt32, DataType::UInt64]).clone()
+}
+
+fn gen_elem(rng: &mut Rng, default_name: &str, alts: &[&str], depth: u32) -> FieldRef {
+    let name = if rng.chance(3, 4) { default_name } else { *rng.pick(alts) };
+    Arc::new(Field::new(name, gen_type(rng, depth + 1), rng.chance(2, 3)))
+}
+
+fn gen_type(rng: &mut Rng, depth: u32) -> DataType {
+    let leaf_bias = match depth {
+        0 => 45,
+        1 => 60,
+        2 => 80,
+        _ => 100,
+    };
+    if rng.below(100) < leaf_bias {
+        return gen_leaf_type(rng);
+    }
+    match rng.below(44) {
+        0..=9 => DataType::Dictionary(Box::new(gen_int_type(rng)), Box::new(gen_leaf_type(rng))),
+        10..=19 => {
+            let k = 1 + rng.below(3) as usize;
+            let fs: Vec<Field> = (0..k).map(|i| Field::new(["a", "b", "c"][i], gen_type(rng, depth + 1), rng.chance(2, 3))).collect();
+            DataType::Struct(fs.into())
+        }
+        20..=27 => DataType::List(gen_elem(rng, "item", &["element", "e"], depth)),
+        28..=30 => DataType::LargeList(gen_elem(rng, "item", &["element", "e"], depth)),
+        31..=33 => DataType::ListView(gen_elem(rng, "item", &["element", "e"], depth)),
+        34 => DataType::LargeListView(gen_elem(rng, "item", &["element", "e"], depth)),
+        35..=37 => DataType::FixedSizeList(gen_elem(rng, "item", &["element", "e"], depth), *rng.pick(&[0, 1, 2, 3, 5])),
+        38..=41 => {
+            // map keys: non-null leaf
+            let kname = if rng.chance(3, 4) { "key" } else { "keys" };
+            let vname = if rng.chance(3, 4) { "value" } else { "values" };
+            let k = Field::new(kname, gen_leaf_type(rng), false);
+            let v = Field::new(vname, gen_type(rng, depth + 1), rng.chance(2, 3));
+            DataType::Map(Arc::new(Field::new("entries", DataType::Struct(vec![k, v].into()), false)), false)
+        }
+        _ => {
+            let r = rng.pick(&[DataType::Int16, DataType::Int32, DataType::Int64]).clone();
+            // flat values only: the reader gives nested ree back without the arrow hint (see report)
+            let v = Field::new("values", gen_leaf_type(rng), rng.chance(2, 3));
+            DataType::RunEndEncoded(Arc::new(Field::new("run_ends", r, false)), Arc::new(v))
+        }
+    }
+}
+
+/// types the generator must not produce (writer rejects them by design / documented gaps)
+fn type_ok(dt: &DataType, top: bool) -> bool {
+    match dt {
+        DataType::Struct(fs) => !fs.is_empty() && fs.iter().all(|f| type_ok(f.data_type(), false)),
+        DataType::List(f) | DataType::LargeList(f) | DataType::ListView(f) | DataType::LargeListView(f) | DataType::FixedSizeList(f, _) => type_ok(f.data_type(), false),
+        DataType::Map(e, _) => type_ok(e.data_type(), false),
+        DataType::RunEndEncoded(_, v) => top && type_ok(v.data_type(), false),
+        DataType::Dictionary(_, v) => type_ok(v, false),
+        _ => true,
+    }
+}
+
+fn pow10(p: u8) -> i128 {
+    10i128.pow(p.min(38) as u32)
+}
+
+fn int_range(dt: &DataType) -> Option<(i128, i128)> {
+    Some(match dt {
+        DataType::Int8 => (i8::MIN as i128, i8::MAX as i128),
+        DataType::Int16 => (i16::MIN as i128, i16::MAX as i128),
+        DataType::Int32 | DataType::Date32 | DataType::Time32(_) | DataType::Interval(IntervalUnit::YearMonth) => (i32::MIN as i128, i32::MAX as i128),
+        DataType::Int64 | DataType::Date64 | DataType::Time64(_) | DataType::Timestamp(_, _) | DataType::Duration(_) => (i64::MIN as i128, i64::MAX as i128),
+        DataType::UInt8 => (0, u8::MAX as i128),
+        DataType::UInt16 => (0, u16::MAX as i128),
+        DataType::UInt32 => (0, u32::MAX as i128),
+        DataType::UInt64 => (0, u64::MAX as i128),
+        DataType::Decimal32(p, _) | DataType::Decimal64(p, _) | DataType::Decimal128(p, _) | DataType::Decimal256(p, _) => (-(pow10(*p) - 1), pow10(*p) - 1),
+        _ => return None,
+    })
+}
+
+const STRS: &[&str] = &[
+    "",
+    "a",
+    "b",
+    "ab",
+    "abc",
+    "twelve bytes",
+    "thirteen byte",
+    "a string that is longer than twelve bytes",
+    "a string that is longer than twelve bytes, and then some",
+    "prefix/shared/0001",
+    "prefix/shared/0002",
+    "prefix/shared/0002/x",
+    "prefix/other",
+    "\u{e9}t\u{e9}",
+    "\u{65e5}\u{672c}\u{8a9e}\u{306e}\u{30c6}\u{30ad}\u{30b9}\u{30c8}",
+    "\u{1F600}",
+    "zzzzzzzzzzzzzzzzzzzzzzzzzzzzzzzzzzzzzzzzzzzzzzzzzzzzzzzzzzzzzzzzzzzzzzzzzzzzzzzzzzzzzzzz",
+];
+
+fn rand_leaf(dt: &DataType, rng: &mut Rng) -> V {
+    if let Some((lo, hi)) = int_range(dt) {
+        if let DataType::Decimal256(p, _) = dt {
+            if *p > 38 && rng.chance(1, 3) {
+                let nines = "9".repeat(*p as usize);
+                let s = if rng.bool() { nines } else { format!("-{}", nines) };
+                return V::W(i256::from_string(&s).unwrap());
+            }
+        }
+        return V::I(match rng.below(10) {
+            0 => lo,
+            1 => hi,
+            2 => 0,
+            3 => (-1i128).max(lo),
+            4 => 1.min(hi),
+            5 | 6 => (rng.range(-130, 130) as i128).clamp(lo, hi),
+            7 => (rng.range(-70000, 70000) as i128).clamp(lo, hi),
+            _ => {
+                let span = (hi - lo) as u128 + 1;
+                let r = ((rng.next_u64() as u128) << 64 | rng.next_u64() as u128) % span;
+                lo + r as i128
+            }
+        });
+    }
+    match dt {
+        DataType::Boolean => V::I(rng.below(2) as i128),
+        DataType::Float16 => V::I(*rng.pick(&[0u16, 0x8000, 0x7e00, 0x7e01, 0xfe55, 0x7c01, 0x7c00, 0xfc00, 1, 0x7bff, 0x3c00, 0xbc00, 0x4248]) as i128 ^ if rng.chance(1, 4) { rng.below(1 << 16) as i128 } else { 0 }),
+        DataType::Float32 => V::I(
+            *rng.pick(&[0u32, 0x8000_0000, 0x7fc0_0000, 0x7fc0_0001, 0xffc1_2345, 0x7f80_0001, 0x7f80_0000, 0xff80_0000, 1, 0x7f7f_ffff, 0x3f80_0000, 0xbf80_0000, 0x4049_0fdb]) as i128
+                ^ if rng.chance(1, 4) { rng.below(1 << 32) as i128 } else { 0 },
+        ),
+        DataType::Float64 => V::I(
+            *rng.pick(&[
+                0u64,
+                0x8000_0000_0000_0000,
+                0x7ff8_0000_0000_0000,
+                0x7ff8_0000_0000_0001,
+                0xfff8_dead_beef_0001,
+                0x7ff0_0000_0000_0001,
+                0x7ff0_0000_0000_0000,
+                0xfff0_0000_0000_0000,
+                1,
+                0x7fef_ffff_ffff_ffff,
+                0x3ff0_0000_0000_0000,
+                0xbff0_0000_0000_0000,
+                0x4009_21fb_5444_2d18,
+            ]) as i128
+                ^ if rng.chance(1, 4) { rng.next_u64() as i128 } else { 0 },
+        ),
+        DataType::Interval(IntervalUnit::DayTime) => {
+            let p = |rng: &mut Rng| V::I(*rng.pick(&[0i128, 1, -1, 30, 86_399_999, i32::MAX as i128, i32::MIN as i128, 12345]));
+            V::S(vec![p(rng), p(rng)])
+        }
+        DataType::Utf8 | DataType::LargeUtf8 | DataType::Utf8View => {
+            if rng.chance(1, 6) {
+                V::B(format!("prefix/shared/{:05}", rng.below(300)).into_bytes())
+            } else {
+                V::B(rng.pick(STRS).as_bytes().to_vec())
+            }
+        }
+        DataType::Binary | DataType::LargeBinary | DataType::BinaryView => match rng.below(6) {
+            0 => V::B(vec![]),
+            1 => V::B(vec![0xff, 0xfe, 0x00, 0x80]),
+            2 => V::B(rng.pick(STRS).as_bytes().to_vec()),
+            3 => V::B(vec![0; rng.usize(20)]),
+            _ => {
+                let n = rng.usize(30);
+                V::B(rng.bytes(n))
+            }
+        },
+        DataType::FixedSizeBinary(n) => {
+            let n = *n as usize;
+            match rng.below(4) {
+                0 => V::B(vec![0; n]),
+                1 => V::B(vec![0xff; n]),
+                _ => V::B(rng.bytes(n)),
+            }
+        }
+        _ => V::I(0),
+    }
+}
+
+/// n non-null leaf values with some structure (pool / runs / monotone / iid)
+fn gen_leaf_col(dt: &DataType, n: usize, rng: &mut Rng, max_card: usize) -> Vec<V> {
+    let mut pattern = rng.below(10);
+    if max_card < usize::MAX && pattern >= 4 {
+        pattern %= 4; // dictionary columns: bounded cardinality
+    }
+    match pattern {
+        // small pool, iid
+        0 | 1 => {
+            let k = (1 + rng.usize(6)).min(max_card);
+            let pool: Vec<V> = (0..k).map(|_| rand_leaf(dt, rng)).collect();
+            (0..n).map(|_| rng.pick(&pool).clone()).collect()
+        }
+        // runs
+        2 | 3 => {
+            let k = (1 + rng.usize(5)).min(max_card);
+            let pool: Vec<V> = (0..k).map(|_| rand_leaf(dt, rng)).collect();
+            let long = rng.chance(1, 3);
+            let mut out = Vec::with_capacity(n);
+            while out.len() < n {
+                let len = if long { 1 + rng.usize(700) } else { 1 + rng.usize(20) };
+                let v = rng.pick(&pool).clone();
+                for _ in 0..len.min(n - out.len()) {
+                    out.push(v.clone());
+                }
+            }
+            out
+        }
+        // monotone / sequential
+        4 | 5 => {
+            if let Some((lo, hi)) = int_range(dt) {
+                let step = *rng.pick(&[1i128, 1, 2, 3, 7, 1000, -1, -5, 1 << 33]);
+                let span = step.abs() * n as i128;
+                let mut start = *rng.pick(&[0i128, 1, -100, 1 << 31, lo, hi]);
+                if step > 0 {
+                    start = start.clamp(lo, (hi - span).max(lo));
+                } else {
+                    start = start.clamp((lo + span).min(hi), hi);
+                }
+                (0..n).map(|i| V::I((start + step * i as i128).clamp(lo, hi))).collect()
+            } else if matches!(dt, DataType::Utf8 | DataType::LargeUtf8 | DataType::Utf8View | DataType::Binary | DataType::LargeBinary | DataType::BinaryView) {
+                let pre = *rng.pick(&["", "k", "common-prefix-longer-than-12/"]);
+                (0..n).map(|i| V::B(format!("{}{:04}", pre, i).into_bytes())).collect()
+            } else {
+                (0..n).map(|_| rand_leaf(dt, rng)).collect()
+            }
+        }
+        _ => (0..n).map(|_| rand_leaf(dt, rng)).collect(),
+    }
+}
+
+/// replace some values by nulls
+fn apply_nulls(vals: &mut [V], nullable: bool, rng: &mut Rng) {
+    if !nullable || vals.is_empty() {
+        return;
+    }
+    let (num, den) = match rng.below(20) {
+        0..=4 => return,
+        5..=10 => (1, 10),
+        11..=13 => (1, 2),
+        14..=17 => (9, 10),
+        _ => (1, 1),
+    };
+    if rng.chance(1, 4) {
+        // runs of nulls
+        let mut i = 0;
+        while i < vals.len() {
+            let len = 1 + rng.usize(12);
+            if rng.chance(num, den) {
+                for v in vals.iter_mut().skip(i).take(len) {
+                    *v = V::N;
+                }
+            }
+            i += len;
+        }
+    } else {
+        for v in vals.iter_mut() {
+            if rng.chance(num, den) {
+                *v = V::N;
+            }
+        }
+    }
+}
+
+fn gen_lens(n: usize, rng: &mut Rng, budget: usize) -> Vec<usize> {
+    let mode = rng.below(6);
+    let mut left = budget;
+    (0..n)
+        .map(|_| {
+            let l = match mode {
+                0 => 0,
+                1 => rng.usize(2),
+                2 | 3 => *rng.pick(&[0, 0, 1, 1, 2, 3, 4]),
+                4 => {
+                    if rng.chance(1, 8) {
+                        rng.usize(25)
+                    } else {
+                        rng.usize(3)
+                    }
+                }
+                _ => 1,
+            };
+            let l = l.min(left);
+            left -= l;
+            l
+        })
+        .collect()
+}
+
+fn gen_col(f: &Field, n: usize, rng: &mut Rng) -> Vec<V> {
+    let dt = f.data_type();
+    let split = |flat: Vec<V>, lens: &[usize]| -> Vec<V> {
+        let mut it = flat.into_iter();
+        lens.iter().map(|l| V::L(it.by_ref().take(*l).collect())).collect()
+    };
+    let mut out: Vec<V> = match dt {
+        DataType::Struct(fs) => {
+            let cols: Vec<Vec<V>> = fs.iter().map(|c| gen_col(c, n, rng)).collect();
+            (0..n).map(|i| V::S(cols.iter().map(|c| c[i].clone()).collect())).collect()
+        }
+        DataType::List(e) | DataType::LargeList(e) | DataType::ListView(e) | DataType::LargeListView(e) => {
+            let lens = gen_lens(n, rng, 2 * n + 40);
+            let flat = gen_col(e, lens.iter().sum(), rng);
+            split(flat, &lens)
+        }
+        DataType::FixedSizeList(e, w) => {
+            let lens = vec![*w as usize; n];
+            let flat = gen_col(e, n * *w as usize, rng);
+            split(flat, &lens)
+        }
+        DataType::Map(e, _) => {
+            let DataType::Struct(kv) = e.data_type() else { unreachable!() };
+            let lens = gen_lens(n, rng, 2 * n + 40);
+            let m = lens.iter().sum();
+            let ks = gen_col(&kv[0], m, rng);
+            let vs = gen_col(&kv[1], m, rng);
+            split(ks.into_iter().zip(vs).map(|(k, v)| V::S(vec![k, v])).collect(), &lens)
+        }
+        DataType::Dictionary(_, v) => gen_leaf_col(v, n, rng, 12),
+        DataType::RunEndEncoded(_, v) => {
+            let mut vals = gen_leaf_col(v.data_type(), n, rng, 6);
+            apply_nulls(&mut vals, v.is_nullable() && f.is_nullable(), rng);
+            return vals;
+        }
+        _ => gen_leaf_col(dt, n, rng, usize::MAX),
+    };
+    apply_nulls(&mut out, f.is_nullable(), rng);
+    out
+}
+
+fn kind_of(dt: &DataType) -> &'static str {
+    match dt {
+        DataType::Boolean => "bool",
+        DataType::Int8 | DataType::Int16 | DataType::Int32 | DataType::Int64 | DataType::UInt8 | DataType::UInt16 | DataType::UInt32 | DataType::UInt64 => "int",
+        DataType::Float16 | DataType::Float32 | DataType::Float64 => "float",
+        DataType::Date32 | DataType::Date64 | DataType::Time32(_) | DataType::Time64(_) | DataType::Timestamp(_, _) | DataType::Duration(_) | DataType::Interval(_) => "temporal",
+        DataType::Decimal32(_, _) | DataType::Decimal64(_, _) | DataType::Decimal128(_, _) | DataType::Decimal256(_, _) => "decimal",
+        DataType::Utf8 | DataType::LargeUtf8 => "string",
+        DataType::Binary | DataType::LargeBinary => "binary",
+        DataType::Utf8View | DataType::BinaryView => "view",
+        DataType::FixedSizeBinary(_) => "fsb",
+        DataType::Dictionary(_, _) => "dict",
+        DataType::Struct(_) => "struct",
+        DataType::List(_) => "list",
+        DataType::LargeList(_) => "largelist",
+        DataType::ListView(_) | DataType::LargeListView(_) => "listview",
+        DataType::FixedSizeList(_, _) => "fsl",
+        DataType::Map(_, _) => "map",
+        DataType::RunEndEncoded(_, _) => "ree",
+        _ => "other",
+    }
+}
+
+fn gen_enc(ph: Ph, rng: &mut Rng) -> &'static str {
+    if rng.chance(1, 3) {
+        return "-";
+    }
+    let opts: &[&str] = match ph {
+        Ph::Bool => &["PLAIN", "RLE"],
+        Ph::I32 | Ph::I64 => &["PLAIN", "DBP", "BSS"],
+        Ph::F32 | Ph::F64 => &["PLAIN", "BSS"],
+        Ph::Ba => &["PLAIN", "DLBA", "DBA"],
+        Ph::Flba => &["PLAIN", "BSS", "DBA"],
+    };
+    *rng.pick(opts)
+}
+
+pub fn gen_e2e(rng: &mut Rng, thorough: bool) -> (String, String) {
+    // rows
+    let n: usize = match rng.below(100) {
+        0..=2 => 0,
+        3..=7 => 1,
+        8..=47 => 2 + rng.usize(19),
+        48..=84 => 21 + rng.usize(40),
+        85..=96 => 100 + rng.usize(500),
+        _ => {
+            if thorough {
+                1000 + rng.usize(4000)
+            } else {
+                600 + rng.usize(700)
+            }
+        }
+    };
+    // schema
+    let ncols = if n > 300 { 1 + rng.usize(2) } else { 1 + rng.usize(4) };
+    let mut fields: Vec<Field> = vec![];
+    while fields.len() < ncols {
+        let dt = gen_type(rng, 0);
+        if !type_ok(&dt, true) {
+            continue;
+        }
+        let nullable = rng.chance(2, 3);
+        fields.push(Field::new(format!("c{}", fields.len()), dt, nullable));
+    }
+    let cols: Vec<Vec<V>> = fields.iter().map(|f| gen_col(f, n, rng)).collect();
+    let schema_s = fields.iter().map(s_field_top).collect::<Vec<_>>().join(";");
+    let mut data_s = String::new();
+    for (i, c) in cols.iter().enumerate() {
+        if i > 0 {
+            data_s.push(';');
+        }
+        data_s.push('[');
+        for (j, v) in c.iter().enumerate() {
+            if j > 0 {
+                data_s.push(',');
+            }
+            pv(v, &mut data_s);
+        }
+        data_s.push(']');
+    }
+    // props
+    let mut phs = vec![];
+    fields.iter().for_each(|f| leaves(f.data_type(), &mut phs));
+    let v2 = rng.bool();
+    let encs: Vec<&str> = phs.iter().map(|p| gen_enc(*p, rng)).collect();
+    let enc_s = if encs.iter().all(|e| *e == encs[0]) && rng.bool() { encs[0].to_string() } else if phs.len() == 1 { encs[0].to_string() } else { encs.join("/") };
+    let dict_s: String = match rng.below(10) {
+        0..=3 => "1".into(),
+        4..=6 => "0".into(),
+        _ if phs.len() == 1 => "1".into(),
+        _ => phs.iter().map(|_| *rng.pick(&['0', '1', '-'])).collect(),
+    };
+    let dps = match rng.below(20) {
+        0..=9 => 1 << 20,
+        10..=16 => 1 + rng.usize(64),
+        _ => 200 + rng.usize(1800),
+    };
+    let pg = match rng.below(20) {
+        0..=8 => 1 << 20,
+        9 | 10 => 1,
+        11..=15 => 2 + rng.usize(63),
+        _ => 100 + rng.usize(3900),
+    };
+    let pr = match rng.below(20) {
+        0..=9 => 20000,
+        10 | 11 => 1,
+        12..=15 => 2 + rng.usize(9),
+        _ => 11 + rng.usize(190),
+    };
+    let wb = match rng.below(20) {
+        0..=7 => 1024,
+        8 | 9 => 1,
+        10..=14 => 2 + rng.usize(7),
+        _ => 9 + rng.usize(192),
+    };
+    let par = if rng.chance(1, 4) { 1 + rng.usize(4) } else { 0 };
+    let max_groups = if par > 0 { 12 } else { 48 };
+    let mut rg = match rng.below(20) {
+        0..=8 => 0,
+        9 => 1,
+        10..=13 => 2 + rng.usize(9),
+        14..=17 => 11 + rng.usize(90),
+        _ => 100 + rng.usize(900),
+    };
+    if rg > 0 && n / rg > max_groups {
+        rg = n / max_groups + 1;
+    }
+    let rgb = if par == 0 && rng.chance(1, 12) { 1 + rng.usize(3000) } else { 0 };
+    let comp = *rng.pick(&["UNCOMPRESSED", "UNCOMPRESSED", "UNCOMPRESSED", "SNAPPY", "GZIP", "LZ4", "LZ4_RAW", "ZSTD", "BROTLI"]);
+    let stats = *rng.pick(&["none", "chunk", "page", "page"]);
+    let bloom = if rng.chance(1, 4) { 1 + rng.usize(100) } else { 0 };
+    let cdc = if par == 0 && rng.chance(1, 6) {
+        let min = 1 + rng.usize(64);
+        format!("{}:{}:{}", min, min + 1 + rng.usize(256), rng.range(-3, 3))
+    } else {
+        "0".to_string()
+    };
+    let mut props = format!("v={},enc={},dict={},dps={},pg={},pr={},wb={},rg={},comp={},stats={},bloom={},cdc={},par={}", if v2 { 2 } else { 1 }, enc_s, dict_s, dps, pg, pr, wb, rg, comp, stats, bloom, cdc, par);
+    if rgb > 0 {
+        write!(props, ",rgb={}", rgb).unwrap();
+    }
+    if par > 0 {
+        write!(props, ",jo={}", rng.below(1000)).unwrap();
+    }
+    // plan
+    let g = if rng.bool() { 0 } else { 1 + rng.below(999) };
+    let s = if rng.chance(3, 5) { 0 } else { 1 + rng.usize(9) };
+    let mut items: Vec<String> = vec![];
+    let mut sizes: Vec<usize> = vec![];
+    match rng.below(10) {
+        0..=3 => sizes.push(n),
+        4..=7 => {
+            let k = 2 + rng.usize(3);
+            let mut left = n;
+            for i in 0..k {
+                let t = if i == k - 1 { left } else { rng.usize(left + 1) };
+                sizes.push(t);
+                left -= t;
+            }
+        }
+        _ => {
+            let mut left = n;
+            let maxb = 1 + rng.usize(1 + n / 6);
+            while left > 0 {
+                let t = (1 + rng.usize(maxb)).min(left);
+                sizes.push(t);
+                left -= t;
+            }
+            if sizes.is_empty() {
+                sizes.push(0);
+            }
+        }
+    }
+    let flushy = rng.chance(1, 3);
+    let mut flush_between = false;
+    let mut seen_rows = false;
+    let mut pending_flush = false;
+    if flushy && rng.chance(1, 4) {
+        items.push("f".into());
+    }
+    let mut nflush = 0;
+    for (i, sz) in sizes.iter().enumerate() {
+        if *sz > 0 {
+            if seen_rows && pending_flush {
+                flush_between = true;
+            }
+            seen_rows = true;
+            pending_flush = false;
+        }
+        items.push(sz.to_string());
+        if rng.chance(1, 12) {
+            items.push("0".into());
+        }
+        if flushy && nflush < max_groups && (rng.chance(1, 3) || i + 1 == sizes.len() && rng.chance(1, 2)) {
+            items.push("f".into());
+            nflush += 1;
+            pending_flush = true;
+            if rng.chance(1, 6) {
+                items.push("f".into());
+            }
+        }
+    }
+    let nwrites = items.iter().filter(|x| *x != "f").count();
+    let has_flush = items.iter().any(|x| x == "f");
+    let plan = format!("g{}s{}:{}", g, s, items.join(","));
+    let rbs = match rng.below(12) {
+        0 => 1,
+        1 => 2,
+        2 => 3,
+        3 => 7,
+        4 => 8,
+        5 => n.max(2) - 1,
+        6 => n.max(1),
+        7 => n + 1,
+        8 => 64,
+        9 => 1 + rng.usize(n + 1),
+        _ => 1024,
+    };
+    let line = format!("C05 e2e {} {} {} {} {}", props, plan, rbs, schema_s, data_s);
+    // tags
+    let mut tags: Vec<String> = vec!["op:e2e".into(), if v2 { "v2" } else { "v1" }.into()];
+    let mut es: Vec<&str> = encs.clone();
+    es.sort();
+    es.dedup();
+    for e in es {
+        tags.push(format!("enc:{}", if e == "-" { "unset" } else { e }));
+    }
+    tags.push(format!("dict:{}", match dict_s.as_str() {
+        "1" => "on",
+        "0" => "off",
+        _ => "mixed",
+    }));
+    tags.push(format!("comp:{}", comp));
+    tags.push(format!("stats:{}", stats));
+    let nested = fields.iter().any(|f| f.data_type().is_nested() && !matches!(f.data_type(), DataType::RunEndEncoded(_, _)));
+    tags.push(if nested { "nested" } else { "flat" }.into());
+    let mut kinds: Vec<&str> = fields.iter().map(|f| kind_of(f.data_type())).collect();
+    kinds.sort();
+    kinds.dedup();
+    for k in kinds {
+        tags.push(format!("ty:{}", k));
+    }
+    tags.push(format!("par:{}", par));
+    let multi_rg = (rg > 0 && n > rg) || flush_between;
+    if multi_rg {
+        tags.push("multi-rg".into());
+    }
+    if nwrites > 1 {
+        tags.push("multi-batch".into());
+    }
+    if has_flush {
+        tags.push("flushes".into());
+    }
+    if s > 0 {
+        tags.push("sliced".into());
+    }
+    if g > 0 {
+        tags.push("garbage".into());
+    }
+    if bloom > 0 {
+        tags.push("bloom".into());
+    }
+    if cdc != "0" {
+        tags.push("cdc".into());
+    }
+    if rgb > 0 {
+        tags.push("rg-bytes".into());
+    }
+    tags.push(format!("rows:{}", match n {
+        0 => "0",
+        1 => "1",
+        2..=20 => "small",
+        21..=99 => "mid",
+        100..=999 => "large",
+        _ => "huge",
+    }));
+    let nulls = cols.iter().any(|c| c.iter().any(has_null));
+    if nulls {
+        tags.push("nulls".into());
+    }
+    if n >= 1 && (nested || nulls || nwrites > 1 || multi_rg) {
+        tags.push("nt".into());
+    }
+    (line, tags.join(" "))
 }
